@@ -289,6 +289,12 @@ class ExprEval:
             raise Unsupported("symbolic tuple index")
         if isinstance(base, Lst):
             return self.index_list(st, base, key, node)
+        if isinstance(base, Opaque) and base.tag == "dict":
+            base = base.payload
+        if isinstance(base, dict) and isinstance(key, str):
+            if key not in base:
+                raise Unsupported(f"dict key {key!r} missing (KeyError in python)")
+            return base[key]
         if isinstance(base, OptV):
             raise Unsupported("subscript on a possibly-None value")
         if isinstance(base, Opaque) and base.tag == "frame" and isinstance(key, str) and key in ("ilocs", "labels") and isinstance(base.payload, (Arr, Lst)) \
